@@ -278,7 +278,7 @@ fn run_random_case(case_seed: u64, rep: &mut Report, verbose: bool) {
                 pool[k].model = Model::new(n2);
                 continue;
             }
-            match rng.weighted(&[40, 14, 12, 10, 3, 3, 6]) {
+            match rng.weighted(&[40, 14, 12, 10, 3, 3, 6, 3]) {
                 0 => {
                     // unions biased to join different components through non-root, deep elements
                     let u = rng.usize_below(n);
@@ -329,6 +329,29 @@ fn run_random_case(case_seed: u64, rep: &mut Report, verbose: bool) {
                     cx.rep.see_str("reset_kinds", if n2 > n { "grow" } else if n2 < n { "shrink" } else { "same" });
                     lib!(pool[k].dsu.reset(n2));
                     pool[k].model = Model::new(n2);
+                }
+                5 if pool.len() < 3 && rng.chance(1, 2) => {
+                    // a second, fresh structure of another size
+                    let n2 = rng.range_usize(1, 40);
+                    cx.note(format!("new({}) -> [{}]", n2, pool.len()));
+                    pool.push(Pair { dsu: lib!(DSU::new(n2)), model: Model::new(n2) });
+                }
+                7 => {
+                    // Clone::clone_from into another live structure (of any size)
+                    if pool.len() >= 2 {
+                        let mut j = rng.usize_below(pool.len() - 1);
+                        if j >= k {
+                            j += 1;
+                        }
+                        cx.note(format!("[{}].clone_from([{}]) (sizes {} <- {})", j, k, pool[j].model.n(), n));
+                        cx.rep.inc("clone_from_calls");
+                        cx.rep.see_str("clone_from_kinds", if pool[j].model.n() < n { "into_shorter" } else if pool[j].model.n() > n { "into_longer" } else { "same_len" });
+                        let src = lib!(pool[k].dsu.clone());
+                        lib!(pool[j].dsu.clone_from(&src));
+                        pool[j].model = Model { label: pool[k].model.label.clone(), members: pool[k].model.members.clone(), rep: pool[k].model.rep.clone() };
+                        check_forest(&pool[j], &mut cx, "after clone_from");
+                        full_verify(&mut pool[j], &mut cx, "after clone_from");
+                    }
                 }
                 5 => {
                     if pool.len() < 3 {
@@ -815,6 +838,159 @@ fn run_adversarial(order: &str, n: usize, seed: u64, rep: &mut Report) {
     }
 }
 
+// ------------------------------------------------------------------------------------------------
+// "sleeper" histories: a vertex is looked up, then exactly W structure-changing operations happen that never mention
+// it (nor any vertex with the same residue modulo 8, so that no small direct-mapped table keyed by low index bits is
+// refreshed on its behalf), one of which moves its component under another root; then it is looked up again. W sits at
+// and around 2^8 and 2^16, where a narrow operation counter wraps. Observation through the public API only.
+
+const SLEEPER_W: &[usize] = &[255, 256, 257, 65_535, 65_536, 65_537, 131_072];
+
+#[allow(unused_assignments)]
+fn run_sleeper(w: usize, variant: &str, rep: &mut Report) {
+    let replay = vec!["--mode".into(), "sleeper".into(), "--case".into(), format!("{}:{}", variant, w)];
+    let mut cx = Cx { rep, replay, log: vec![format!("sleeper {} W {}", variant, w)], mode: "sleeper" };
+    cx.rep.inc("evaluations");
+    cx.rep.inc("sleeper_histories");
+    cx.rep.see_str("nontrivial", &format!("sleeper:{}:{}", variant, w));
+    let r = catch(|| {
+        let (x, y) = (3usize, 4usize);
+        macro_rules! observe {
+            ($dsu:expr, $m:expr, $v:expr, $when:expr) => {{
+                let v: usize = $v;
+                let got = lib!($dsu.par(v));
+                let root_m = $m.find(v);
+                cx.rep.inc("par_checked");
+                if $m.find(got) != root_m {
+                    cx.violation("par_not_member", Json::obj().set("v", v).set("got", got).set("when", $when).set("W", w));
+                    return;
+                }
+                let s = lib!($dsu.size(v));
+                if s != $m.cnt[root_m] as usize {
+                    cx.violation("size", Json::obj().set("v", v).set("got", s).set("want", $m.cnt[root_m]).set("when", $when).set("W", w));
+                    return;
+                }
+                // every member of a small component reports the same representative and is connected to v
+                if ($m.cnt[root_m] as usize) <= 16 {
+                    for u in 0..16usize.min($m.up.len()) {
+                        if $m.find(u) == root_m {
+                            let (pu, c) = (lib!($dsu.par(u)), lib!($dsu.check(u, v)));
+                            let pv = lib!($dsu.par(v));
+                            if pu != pv || !c {
+                                cx.violation("par_unstable", Json::obj().set("what", "two members of one component report different representatives (or check() denies the connection)").set("u", u).set("v", v).set("par_u", pu).set("par_v", pv).set("check", c).set("when", $when).set("W", w));
+                                return;
+                            }
+                        }
+                    }
+                }
+            }};
+        }
+        match variant {
+            "reroot" => {
+                let n = (2 * w + 16) * 8 / 7 + 64;
+                let mut dsu = lib!(DSU::new(n));
+                let mut m = BigModel::new(n);
+                #[allow(unused_assignments)]
+                let mut events = 0usize;
+                macro_rules! un {
+                    ($u:expr, $v:expr) => {{
+                        let (u, v) = ($u, $v);
+                        let want = m.union(u, v);
+                        let got = lib!(dsu.un(u, v));
+                        cx.rep.inc("un_checked");
+                        if got != want {
+                            cx.violation("un_result", Json::obj().set("u", u).set("v", v).set("got", got).set("want", want).set("W", w));
+                            return;
+                        }
+                        if want {
+                            events += 1;
+                        }
+                    }};
+                }
+                un!(x, y);
+                observe!(dsu, m, x, "before the gap");
+                events = 0;
+                un!(5, 6);
+                un!(5, 7);
+                un!(y, 5); // the component of x (2 members) goes under the root of {5,6,7}
+                let mut a = 9usize;
+                let next_usable = |a: &mut usize| -> usize {
+                    loop {
+                        *a += 1;
+                        if *a % 8 != x % 8 {
+                            return *a;
+                        }
+                    }
+                };
+                while events < w {
+                    let (u, v) = (next_usable(&mut a), next_usable(&mut a));
+                    un!(u, v);
+                }
+                cx.rep.count("sleeper_gap_events", events as u64);
+                observe!(dsu, m, x, "after the gap");
+                let again = lib!(dsu.un(x, 6));
+                if again {
+                    cx.violation("un_result", Json::obj().set("what", "un() of two vertices of one component returned true after the gap").set("u", x).set("v", 6).set("W", w));
+                    return;
+                }
+                big_checkpoint(&dsu, &m, &mut cx, "sleeper final");
+            }
+            "resets" => {
+                // generation events are resets and successful unions on a small structure; the sleeper is re-rooted by the
+                // last few events
+                let n = 16usize;
+                let mut dsu = lib!(DSU::new(n));
+                let mut m = BigModel::new(n);
+                m.union(x, y);
+                lib!(dsu.un(x, y));
+                observe!(dsu, m, x, "before the gap");
+                let mut events = 0usize;
+                // the last 4 events build {5,6,7} and put y under it; everything before alternates reset / union
+                while events + 5 < w {
+                    lib!(dsu.reset(n));
+                    m = BigModel::new(n);
+                    events += 1;
+                    if events + 5 < w {
+                        m.union(5, 6);
+                        if !lib!(dsu.un(5, 6)) {
+                            cx.violation("un_result", Json::obj().set("u", 5).set("v", 6).set("got", false).set("want", true).set("W", w));
+                            return;
+                        }
+                        events += 1;
+                    }
+                }
+                lib!(dsu.reset(n));
+                m = BigModel::new(n);
+                events += 1;
+                for (u, v) in [(12, y), (5, 6), (5, 7), (y, 5)] {
+                    let want = m.union(u, v);
+                    let got = lib!(dsu.un(u, v));
+                    if got != want {
+                        cx.violation("un_result", Json::obj().set("u", u).set("v", v).set("got", got).set("want", want).set("W", w));
+                        return;
+                    }
+                    events += 1;
+                }
+                cx.rep.count("sleeper_gap_events", events as u64);
+                if events != w {
+                    panic!("sleeper resets: {} events, wanted {}", events, w);
+                }
+                observe!(dsu, m, x, "after the gap");
+                observe!(dsu, m, y, "after the gap");
+                big_checkpoint(&dsu, &m, &mut cx, "sleeper final");
+            }
+            _ => panic!("unknown sleeper variant {}", variant),
+        }
+    });
+    if let Err(p) = r {
+        if p.in_lib {
+            cx.violation("panic", Json::obj().set("panic", p.msg.as_str()).set("at", format!("{}:{}", p.file, p.line)).set("W", w));
+        } else {
+            cx.rep.inconclusive(format!("harness panic at {}:{}: {}", p.file, p.line, p.msg));
+        }
+    }
+}
+
 fn main() {
     let eng = Engine::start("dsumon");
     let a = &eng.args;
@@ -910,6 +1086,28 @@ fn main() {
             report.extra("exhaustive", false);
             report.extra("orders", Json::from(ORDERS.iter().map(|s| s.to_string()).collect::<Vec<_>>()));
             report.extra("sizes", Json::from(sizes));
+        }
+        "sleeper" => {
+            if let Some(c) = a.opt("case") {
+                let (v, w) = c.rsplit_once(':').unwrap();
+                let w: usize = w.parse().unwrap();
+                let mut rep = Report::new();
+                run_sleeper(w, v, &mut rep);
+                report.merge(rep);
+                eng.finish(report);
+            }
+            let tasks: Vec<(&str, usize)> = ["reroot", "resets"].iter().flat_map(|v| SLEEPER_W.iter().map(move |&w| (*v, w))).collect();
+            let q = WorkQueue::new(tasks.len() as u64);
+            let tasks = &tasks;
+            let rep = common::run_sharded(a.threads(), |_s, rep| {
+                while let Some(i) = q.take() {
+                    let (v, w) = tasks[tasks.len() - 1 - i as usize];
+                    run_sleeper(w, v, rep);
+                }
+            });
+            report.merge(rep);
+            report.extra("exhaustive", false);
+            report.extra("gaps", Json::from(SLEEPER_W.to_vec()));
         }
         m => panic!("unknown mode {}", m),
     }
